@@ -670,6 +670,28 @@ func opRt(a []*sx) string {
 }
 
 // opHop: hop TYPE HEX -- decode into a fresh destination, then re-encode it
+// hasNoCopy: some field reachable from t carries the nocopy option
+func hasNoCopy(t reflect.Type, seen map[reflect.Type]bool) bool {
+	if seen[t] {
+		return false
+	}
+	seen[t] = true
+	switch t.Kind() {
+	case reflect.Ptr, reflect.Slice:
+		return hasNoCopy(t.Elem(), seen)
+	case reflect.Map:
+		return hasNoCopy(t.Key(), seen) || hasNoCopy(t.Elem(), seen)
+	case reflect.Struct:
+		for i := 0; i < t.NumField(); i++ {
+			f := t.Field(i)
+			if strings.Contains(string(f.Tag), "nocopy") || hasNoCopy(f.Type, seen) {
+				return true
+			}
+		}
+	}
+	return false
+}
+
 func opHop(a []*sx) string {
 	p, err := mkDst(a[0].atom, &sx{atom: "fresh"})
 	if err != nil {
@@ -689,6 +711,13 @@ func opHop(a []*sx) string {
 		return es
 	}
 	out := fmt.Sprintf("(ok %d %s)", n, dumpStr(p.Elem()))
+	// the intermediary reuses its receive buffer before forwarding: unless a field asked for
+	// nocopy, the decoded object owns everything, the holder included
+	if !hasNoCopy(p.Elem().Type(), map[reflect.Type]bool{}) {
+		for i := range buf {
+			buf[i] = 0xA5
+		}
+	}
 	sz := safeSize(p.Interface())
 	out += " " + sz
 	if !strings.HasPrefix(sz, "(size ") {
